@@ -30,6 +30,12 @@ def mk_val(v, ffi=None):
         ffi.memmove(x, data, len(data))
         _keep.append(x)
         return x
+    if t == "cdataptr":                   # a pointer cdata with len(data) bytes behind it
+        data = bytes.fromhex(v[1])
+        x = ffi.new("char[]", len(data) + 1)
+        ffi.memmove(x, data, len(data))
+        _keep.append(x)
+        return ffi.cast("char *", x) if v[2] == "char" else ffi.cast("int *", x)
     if t == "bytes":
         return bytes.fromhex(v[1])
     if t == "bytearray":
@@ -164,6 +170,9 @@ def run_size(ffi, c):
         elif c["what"] == "castptr":
             keep = ffi.new("char[]", 64)
             x = ffi.cast(c["ctype"], keep)
+        elif c["what"] == "frombuf":
+            keep = bytearray(c["len"])
+            x = ffi.from_buffer(c["ctype"], keep)
         else:
             x = ffi.cast("int", 5)
         import warnings
@@ -175,16 +184,65 @@ def run_size(ffi, c):
         return dict(out=["err", type(e).__name__])
 
 
+def in_child(fn):
+    """run fn() in a forked child; returns its result or ['crash', signal-or-exit-status]"""
+    import os
+    import pickle
+    r, w = os.pipe()
+    pid = os.fork()
+    if pid == 0:
+        os.close(r)
+        try:
+            try:
+                res = fn()
+            except Exception as e:
+                res = dict(error="%s: %s" % (type(e).__name__, e))
+            os.write(w, pickle.dumps(res))
+        finally:
+            os._exit(0)
+    os.close(w)
+    data = b""
+    while True:
+        chunk = os.read(r, 65536)
+        if not chunk:
+            break
+        data += chunk
+    os.close(r)
+    _, status = os.waitpid(pid, 0)
+    if os.WIFSIGNALED(status):
+        return ["crash", os.WTERMSIG(status)]
+    return pickle.loads(data) if data else ["crash", -1]
+
+
 def main(payload):
+    """Cases run in forked children, `chunk` per child; a child that dies is re-run case by case so that a
+    crash (or a sanitizer abort) is attributed to one case, which the harness reports as the replay."""
     ffi = cffi.FFI()
     ffi.cdef(CDEF)
-    res = []
     fns = dict(hist=run_hist, fb=run_fb, mm=run_mm, size=run_size)
-    for c in payload["cases"]:
+    cases = payload["cases"]
+    chunk = max(1, int(payload.get("chunk", 25)))
+    res = [None] * len(cases)
+
+    def one(c):
         try:
-            res.append(fns[c["kind"]](ffi, c))
+            return fns[c["kind"]](ffi, c)
         except Exception as e:
-            res.append(dict(error="%s: %s" % (type(e).__name__, e)))
+            return dict(error="%s: %s" % (type(e).__name__, e))
+
+    def single(i):
+        r = in_child(lambda: one(cases[i]))
+        res[i] = dict(crash=r[1]) if isinstance(r, list) else r
+
+    for k in range(0, len(cases), chunk):
+        idx = list(range(k, min(len(cases), k + chunk)))
+        r = in_child(lambda: [one(cases[i]) for i in idx]) if len(idx) > 1 else None
+        if isinstance(r, list) and len(r) == len(idx) and all(isinstance(x, dict) for x in r):
+            for i, x in zip(idx, r):
+                res[i] = x
+        else:
+            for i in idx:
+                single(i)
     return dict(results=res, sizes={t: ffi.sizeof(t) for t in payload.get("types", [])})
 
 
